@@ -73,3 +73,11 @@ Lemma fixed_flag_case :
   /\ unseen_count [mkLink 1 1 1 [S_ "\seen"]; mkLink 2 1 2 [S_ "\Seenish"]] 1 = 1
   /\ copy_flags [S_ "\recent"] = [S_ "\recent"].
 Proof. vm_compute. repeat split. Qed.
+
+(** only RFC 3501 flags are accepted (fix 07): STORE 1 +FLAGS (x)y) and
+    APPEND INBOX (a DQUOTE b) are refused and change nothing *)
+Lemma fixed_flag_atom :
+  let h := [OAppend 1 [S_ "kw"]; OStore false false 1 (one 1) IT_ADD [S_ "x)y"; SEEN];
+            OUidStore false false 1 (one 1) IT_FLAGS [S_ "a\b"]; OAppend 1 [S_ "a""b"]; OAppend 1 [S_ "\*"]] in
+  view (links (run env0 st0 h)) 1 = [(1, [S_ "kw"])] /\ next_of (nexts (run env0 st0 h)) 1 = 2.
+Proof. vm_compute. split; reflexivity. Qed.
